@@ -20,11 +20,13 @@ struct B<'a> {
     fails: u32,
     /// where the first sorts are applied when that is not the container of the generated siblings
     sort_at: Option<usize>,
+    /// the first sort of the observation block is AutosarModel::sort (the history already contains one, followed by edits)
+    model_first: bool,
 }
 
 impl<'a> B<'a> {
     fn new(names: &'a Names) -> B<'a> {
-        let mut b = B { ex: Exec::new(names), lines: vec![], fails: 0, sort_at: None };
+        let mut b = B { ex: Exec::new(names), lines: vec![], fails: 0, sort_at: None, model_first: false };
         b.op(Op::NewModel);
         b.op(Op::CreateFile(0, b"f0.arxml".to_vec(), 0x100000));
         b
@@ -75,6 +77,10 @@ impl<'a> B<'a> {
         // the observations: comparison matrix, sort (twice: the second must change nothing), whole-model sort
         let at = self.sort_at.unwrap_or(container);
         self.op(Op::CmpKids(container));
+        if self.model_first {
+            self.op(Op::SortModel(0));
+            self.op(Op::CmpKids(container));
+        }
         self.op(Op::Sort(at));
         self.op(Op::CmpKids(container));
         self.op(Op::Sort(at));
@@ -663,6 +669,97 @@ pub fn gen_main(args: &[String]) {
             }
         }
     }
+    // ---- sort_model - edits that touch neither the path index nor the referrer lists - sort_model: the second model sort must
+    // see the edits (scripts with one tag end in the same multiset of siblings; the first sort of the observation block is the
+    // model sort, so the oracle judges its result: sorted, and one text per tag)
+    {
+        let gid = |b: &mut B, e: usize, v: &str| {
+            let a = b.at("GID");
+            b.op(Op::SetAttr(e, a, Val::S(v.as_bytes().to_vec())));
+        };
+        let sdgs = |b: &mut B| -> usize {
+            let pk = b.packages();
+            let p = b.named(pk, "AR-PACKAGE", "p");
+            let ad = b.sub(p, "ADMIN-DATA");
+            b.sub(ad, "SDGS")
+        };
+        let mut emit = |b: B, set: &str, c: usize, k: &mut usize, text: &mut String, op_fail: &mut u64| {
+            let mut b = b;
+            b.model_first = true;
+            *op_fail += b.fails as u64;
+            b.finish(*k, "resort", set, c, text);
+            *k += 1;
+            *stats.entry("resort".into()).or_insert(0) += 1;
+        };
+        // (1) unnamed siblings created after the first model sort, every order
+        for perm in permutations(&["c", "a", "b"]) {
+            let mut b = B::new(&names);
+            let c = sdgs(&mut b);
+            build_sib(&mut b, c, 0, &Sib::Sdg("m"));
+            b.op(Op::SortModel(0));
+            for g in &perm {
+                build_sib(&mut b, c, 0, &Sib::Sdg(g));
+            }
+            emit(b, "sdg-created-after-sort:a+b+c+m", c, &mut k, &mut text, &mut op_fail);
+        }
+        // (2) an attribute that is a sort key changed after the first model sort (both siblings, either one)
+        for (first, second, change_first) in [("a", "b", true), ("a", "b", false), ("b", "a", true)] {
+            let mut b = B::new(&names);
+            let c = sdgs(&mut b);
+            let e1 = b.sub(c, "SDG");
+            gid(&mut b, e1, first);
+            let e2 = b.sub(c, "SDG");
+            gid(&mut b, e2, second);
+            b.op(Op::SortModel(0));
+            // after the sort the siblings are a, b: give one of them a value on the other side of its neighbour
+            let (lo, hi) = if first < second { (e1, e2) } else { (e2, e1) };
+            if change_first { gid(&mut b, lo, "z") } else { gid(&mut b, hi, "0") };
+            emit(b, if change_first { "sdg-attr-after-sort:b+z" } else { "sdg-attr-after-sort:0+a" }, c, &mut k, &mut text, &mut op_fail);
+        }
+        // (3) character data that is a sort key changed after the first model sort
+        for perm in permutations(&["a", "b"]) {
+            let mut b = B::new(&names);
+            let c = build_container(&mut b, "below-idt");
+            b.sort_at = None;
+            let mut origin = vec![];
+            for o in &perm {
+                let a = b.sub(c, "ANNOTATION");
+                let ao = b.sub(a, "ANNOTATION-ORIGIN");
+                b.text(ao, o);
+                origin.push((o.to_string(), ao));
+            }
+            b.op(Op::SortModel(0));
+            let ao = origin.iter().find(|(o, _)| o == "a").unwrap().1;
+            b.text(ao, "c");
+            emit(b, "origin-after-sort:b+c", c, &mut k, &mut text, &mut op_fail);
+        }
+        // (4) unnamed siblings moved to another position after the first model sort
+        for pos in [0usize, 1] {
+            let mut b = B::new(&names);
+            let c = sdgs(&mut b);
+            let mut hs = vec![];
+            for g in ["a", "b", "c"] {
+                let e = b.sub(c, "SDG");
+                gid(&mut b, e, g);
+                hs.push(e);
+            }
+            b.op(Op::SortModel(0));
+            b.op(Op::MoveAt(c, hs[2], pos));
+            emit(b, "sdg-moved-after-sort:a+b+c", c, &mut k, &mut text, &mut op_fail);
+        }
+        // (5) an unnamed subtree copied after the first model sort
+        {
+            let mut b = B::new(&names);
+            let c = sdgs(&mut b);
+            let e1 = b.sub(c, "SDG");
+            gid(&mut b, e1, "b");
+            b.op(Op::SortModel(0));
+            let e0 = b.sub(c, "SDG");
+            gid(&mut b, e0, "a");
+            b.op(Op::CopyAt(c, e0, 2));
+            emit(b, "sdg-copied-after-sort:a+a+b", c, &mut k, &mut text, &mut op_fail);
+        }
+    }
     // ---- named siblings of a leniently loaded document: names the editing API refuses (not ASCII; the last character before
     // the numeric suffix, or the last character at all, is a multi-byte one).  The script is new_model + load(strict = false).
     let lenient_sets: Vec<Vec<&'static str>> = vec![
@@ -687,7 +784,7 @@ pub fn gen_main(args: &[String]) {
             for (i, n) in perm.iter().enumerate() {
                 t = t.replace(&format!(">q{}q<", i), &format!(">{}<", n));
             }
-            let mut b = B { ex: Exec::new(&names), lines: vec![], fails: 0, sort_at: None };
+            let mut b = B { ex: Exec::new(&names), lines: vec![], fails: 0, sort_at: None, model_first: false };
             b.op(Op::NewModel);
             let line = Op::Load(0, t.into_bytes(), b"f0.arxml".to_vec(), false);
             b.lines.push(line.line());
